@@ -150,8 +150,11 @@ def replay(c, pid, trees, behs, nshards=24, timeout=1500, tag="np"):
 def run_nodepool(c, pid):
     """TLC design checks of NodePool.tla + replay of its behaviours on the real node; violations of kinds KINDS[pid]
     are reported through c.violation (by absorb_go), everything else is noted."""
+    import time
+    t0 = time.time()
     rng = random.Random(c.seed * 7919 + 17)
     design_checks(c)
+    t1 = time.time()
     quick = c.tier == "quick"
     tree0, cover, ntr, nst, total = edge_cover(c, rng, max_paths=220 if quick else None)
     c.notes.append("NodePool tree N0: %d transitions, %d states, edge cover %d behaviours (%d replayed)" % (ntr, nst, total, len(cover)))
@@ -165,5 +168,8 @@ def run_nodepool(c, pid):
         behs += b
         c.notes.append("NodePool tree %s: %d simulated behaviours" % (tn, len(b)))
     rng.shuffle(behs)          # spread long and short behaviours over the shards
+    t2 = time.time()
     replay(c, pid, trees, behs, nshards=24 if quick else 32, timeout=2400)
+    c.notes.append("NodePool wall: design checks %.0fs, behaviour generation %.0fs, build+replay of %d behaviours %.0fs" % (t1 - t0, t2 - t1, len(behs), time.time() - t2))
+    vlib.log(c.notes[-1])
     return len(behs)
